@@ -1408,7 +1408,8 @@ class GeoboxTiles:
             a1, a2 = span
             a1 = int(clamp(math.floor(a1), 0, N - 1))
             a2 = int(clamp(math.ceil(a2), 1, N)) - 1
-            return a1, a2
+            # zero-width span on a pixel boundary belongs to the pixel that starts there
+            return a1, max(a1, a2)
 
         NY, NX = self._gbox.shape.yx
         x1, x2 = _clamp(bbox.range_x, NX)
